@@ -43,7 +43,7 @@ def _mk(cfg, force):
     import speckit
     rng = np.random.default_rng(cfg["seed"])
     N = cfg["N"]
-    x = rng.standard_normal(N)
+    x = rng.standard_normal(N) + cfg.get("offset", 0.0)
     data = x if cfg["mode"] == "auto" else np.vstack([x, 0.5 * np.roll(x, 2) + rng.standard_normal(N)])
     kw = dict(scheduler=cfg["sched"], order=cfg["order"], backend=cfg["backend"], olap=cfg["olap"], Kdes=cfg["Kdes"], Lmin=cfg["Lmin"], bmin=1.0)
     if force:
@@ -70,6 +70,8 @@ def _do2(a, op, cfg, Ls):
         return ("spec", _digest(a.compute()))
     if op == "bin1":
         return ("bin", _digest(a.compute_single_bin(0.2, L=Ls[0])))
+    if op == "bin3":          # one segment shorter than the record
+        return ("bin", _digest(a.compute_single_bin(0.13, L=int(0.9 * cfg["N"]))))
     return ("bin", _digest(a.compute_single_bin(0.31, fres=2.0 / (Ls[1] + 0.4))))
 
 
@@ -133,7 +135,7 @@ for t in spec["threads"]:
                     numba.set_parallel_chunksize(ch)
                     out.setdefault(f"{nm}:{order}", {}).setdefault(f"{t}/{ch}", set()).add(dig(getattr(core, nm)(*args)))
             numba.set_parallel_chunksize(ch)
-            r = speckit.compute_spectrum(np.vstack([x, y]), 1.0, order=spec["rep_order"], Jdes=25, Kdes=30, scheduler="ltf", backend="numba")
+            r = speckit.compute_spectrum(np.vstack([x, y]), 1.0, order=spec["rep_order"], Jdes=25, Kdes=30, scheduler="ltf")      # default backend ("auto")
             h = hashlib.blake2b(digest_size=10)
             for k in ("XX", "YY", "XY", "M2"):
                 h.update(np.ascontiguousarray(getattr(r, k)).tobytes())
@@ -212,7 +214,8 @@ def run(tier):
     V.model(rh, f"AnalyzerHist.tla: all call histories of length {mh}, force_target_nf on/off")
     hs = rh.json_prints()
     cfgs = [dict(seed=5, N=700, mode="csd", sched="ltf", order=0, backend="numba", olap=0.5, Kdes=4, Lmin=8, Jdes=12, target=14),
-            dict(seed=6, N=900, mode="auto", sched="lpsd", order=1, backend="numpy", olap=0.3, Kdes=3, Lmin=1, Jdes=9, target=11)]
+            dict(seed=6, N=900, mode="auto", sched="lpsd", order=1, backend="numpy", olap=0.3, Kdes=3, Lmin=1, Jdes=9, target=11),
+            dict(seed=8, N=600, mode="csd", sched="ltf", order=0, backend="numpy", olap=0.5, Kdes=4, Lmin=8, Jdes=10, target=12, offset=40.0)]
     if tier == "thorough":
         cfgs.append(dict(seed=7, N=800, mode="csd", sched="vectorized_ltf", order=2, backend="numba", olap=0.75, Kdes=6, Lmin=16, Jdes=15, target=16))
     items = [(c, h["force"], h["hist"]) for h in hs for c in cfgs]
